@@ -29,9 +29,50 @@ INVALID = {2: [2, 7], 4: [2**31, 2**32 - 1], 5: [0, 16383, 2**24], 8: [2, 9]}
 DEVIATION = 'C11:ack-applies-one-pending-value-per-key'
 
 
+def upgrade_case(ch, r):
+    """The client's settings that arrive in the HTTP2-Settings field of an h2c upgrade are the peer's settings like
+    any others: in force at once, for what they govern and not only as numbers in remote_settings."""
+    import base64
+    import struct
+    s = Solo(False)
+    mfs = ch.pick([16384, 20000, 32768, 2**24 - 1])
+    iws = ch.pick([65535, 100, 200000])
+    hts = ch.pick([4096, 0, 256])
+    body = b''.join(struct.pack('>HI', k, v) for k, v in ch.pick([
+        [(5, mfs), (4, iws), (1, hts)], [(1, hts), (5, mfs)], [(4, iws)], [(5, mfs)]]))
+    given = dict(struct.unpack('>HI', body[i:i + 6]) for i in range(0, len(body), 6))
+    o = s.call('initiate_upgrade_connection', base64.urlsafe_b64encode(body).rstrip(b'='))
+    s.note_peer_settings(sorted(given.items()))
+    r.step('upgrade with HTTP2-Settings', sorted(given.items()), o.brief())
+    if not o.ok:
+        r.violate('C11:valid-upgrade-refused:%s' % o.exc_name, repr(given))
+        return r
+    want_mfs, want_iws = given.get(5, 16384), given.get(4, 65535)
+    if s.c.max_outbound_frame_size != want_mfs or s.c.remote_settings.max_frame_size != want_mfs:
+        r.violate('C11:remote-frame-size-not-immediate', 'upgrade: %r / %r, announced %r' % (
+            s.c.max_outbound_frame_size, s.c.remote_settings.max_frame_size, want_mfs))
+    q = s.call('local_flow_control_window', 1)
+    if q.ok and q.value != min(65535, want_iws):
+        r.violate('C11:remote-setting-not-immediate', 'upgrade: window of stream 1 %r, INITIAL_WINDOW_SIZE %r' % (
+            q.value, want_iws))
+    o = s.call('send_headers', 1, [(b':status', b'200'), (b'x-fill', b'X' * (min(want_mfs, 40000) + 50))])
+    if not o.ok:
+        r.violate('C11:valid-send-refused-after-remote-settings:%s' % o.exc_name, repr(o.exc)[:100])
+    elif any(f.length > want_mfs for f in o.frames) or (want_mfs >= 40050 and len(o.frames) != 1):
+        r.violate('C11:remote-max-frame-size-not-applied-to-existing-stream', 'upgrade: limit %d, frames %r' % (
+            want_mfs, [(f.name, f.length) for f in o.frames]))
+    if s.out_problems:
+        r.violate('C11:malformed-output', repr(s.out_problems))
+    r.nontrivial = len(given) >= 2
+    r.labels.add('http2-settings-of-an-upgrade')
+    return r
+
+
 def run_case(data):
     ch = Chooser(data)
     r = Result()
+    if ch.chance(14):
+        return upgrade_case(ch, r)
     client = ch.bool()
     s = Solo(client)
     o = s.call('initiate_connection')
@@ -245,6 +286,23 @@ def run_case(data):
             for k, old, new_v in got:
                 if k == 4:
                     win_truth += new_v - old
+            if spare_stream and spare_open and any(k == 5 and new_v > remote[5] for k, _, new_v in got) and \
+                    remote[5] <= 70000 and not real_violation():
+                # our own MAX_FRAME_SIZE has just been raised above the peer's: that governs what we accept, not
+                # how our header blocks are sliced - on streams that exist already as on new ones
+                spare_stream = False
+                fill = [(b'x-fill', b'X' * (remote[5] + 50))]
+                o = s.call('send_headers', 3, fill if client else [(b':status', b'200')] + fill, end_stream=True)
+                r.step('big block on an older stream after our own MAX_FRAME_SIZE was acknowledged', 'peer limit',
+                       remote[5], [(f.name, f.length) for f in o.frames], o.brief())
+                if not o.ok:
+                    r.violate('C11:valid-send-refused-after-local-settings-ack:%s' % o.exc_name, repr(o.exc)[:120])
+                    break
+                if any(f.length > remote[5] for f in o.frames):
+                    r.violate('C11:local-max-frame-size-applied-to-outbound-frames',
+                              'peer limit %d, frames %r' % (remote[5], [(f.name, f.length) for f in o.frames]))
+                    break
+                r.labels.add('local-max-frame-size-probe')
         elif op == 'recv':
             pairs = []
             for _ in range(ch.int(0, 4)):
